@@ -3,7 +3,9 @@ package main
 import (
 	"fmt"
 	"go/types"
+	"os"
 	"regexp"
+	"sort"
 	"strings"
 
 	"golang.org/x/tools/go/ssa"
@@ -384,13 +386,77 @@ var txAbs = rewriter(txCountRe, "N", `len\(\$1\)`, "LEN", `φi`, "I")
 
 // decodedCopies: loop-carried slices of fn that are built by appending exactly one element per iteration of a
 // loop over parameter $1 (the received unit decoded ahead of its application); their length is the unit's length.
-func decodedCopies(fn *ssa.Function) []string {
-	var out []string
+func decodedCopies(fn *ssa.Function) []ssa.Value {
 	if len(fn.Params) < 2 {
 		return nil
 	}
-	unit := fn.Params[1]
-	forEachInstr(fn, func(in ssa.Instruction) {
+	out := decodedCopiesOf(fn, fn.Params[1])
+	// ... or by a new helper that is handed the unit and returns such a slice
+	for _, c := range ownCallsIn(fn) {
+		call, ok := c.(*ssa.Call)
+		if !ok {
+			continue
+		}
+		h := staticCallee(call)
+		if h == nil || !flattenable[h] {
+			continue
+		}
+		for k, a := range call.Call.Args {
+			if a != ssa.Value(fn.Params[1]) || k >= len(h.Params) {
+				continue
+			}
+			inner := decodedCopiesOf(h, h.Params[k])
+			if len(inner) == 0 {
+				continue
+			}
+			isCopy := map[ssa.Value]bool{}
+			for _, v := range inner {
+				isCopy[v] = true
+			}
+			// every non-nil slice the helper returns first is that copy
+			good, any := true, false
+			forEachOwnInstr(h, func(in ssa.Instruction) {
+				ret, ok := in.(*ssa.Return)
+				if !ok || len(ret.Results) == 0 {
+					return
+				}
+				var vals []ssa.Value
+				if ph, isPhi := ret.Results[0].(*ssa.Phi); isPhi && !isCopy[ph] {
+					vals = append(vals, ph.Edges...)
+				} else {
+					vals = append(vals, ret.Results[0])
+				}
+				for _, v := range vals {
+					if k, isC := v.(*ssa.Const); isC && k.Value == nil {
+						continue
+					}
+					if isCopy[v] {
+						any = true
+					} else {
+						good = false
+					}
+				}
+			})
+			if !good || !any {
+				continue
+			}
+			out = append(out, inner...)
+			if call.Call.Signature().Results().Len() == 1 {
+				out = append(out, call)
+			}
+			for _, ref := range *call.Referrers() {
+				if ex, ok := ref.(*ssa.Extract); ok && ex.Index == 0 {
+					out = append(out, ex)
+				}
+			}
+		}
+	}
+	return out
+}
+
+func decodedCopiesOf(fn *ssa.Function, unit *ssa.Parameter) []ssa.Value {
+	var out []ssa.Value
+	forEachOwnInstr(fn, func(in ssa.Instruction) {
 		phi, ok := in.(*ssa.Phi)
 		if !ok || !phiCyclic(phi) {
 			return
@@ -456,20 +522,24 @@ func decodedCopies(fn *ssa.Function) []string {
 			}
 		}
 		if good {
-			out = append(out, "φ"+phi.Comment)
+			out = append(out, phi)
 		}
 	})
 	return out
 }
 
-// txAbsFor: txAbs with the lengths of fn's decoded copies of the unit read as the unit's length.
-func txAbsFor(fn *ssa.Function) func(string) string {
-	pairs := []string{txCountRe, "N", `len\(\$1\)`, "LEN"}
-	for _, n := range decodedCopies(fn) {
-		pairs = append(pairs, `len\(`+regexp.QuoteMeta(n)+`\)`, "LEN")
+// aliasDecodedCopies makes the decoded copies of the unit carry the unit's own name ("$1") while a rule reads
+// lengths and indexes; the returned function removes the aliases.
+func aliasDecodedCopies(fn *ssa.Function) func() {
+	vals := decodedCopies(fn)
+	for _, v := range vals {
+		nameAlias[v] = "$1"
 	}
-	pairs = append(pairs, `φi`, "I")
-	return rewriter(pairs...)
+	return func() {
+		for _, v := range vals {
+			delete(nameAlias, v)
+		}
+	}
 }
 
 // R09.4 a length taken from the wire is checked before it bounds a slice
@@ -484,25 +554,87 @@ func ruleR09_4(w *World, r *Report) {
 	n := 0
 	forEachInstr(fn, func(in ssa.Instruction) {
 		sl, ok := in.(*ssa.Slice)
-		if !ok || canonName(sl.X) != "$1" || sl.High == nil {
+		if !ok || sl.High == nil {
 			return
 		}
-		hi := abstractLin(canonLinear(sl.High), txAbs).String()
+		// the sliced sequence: the received batch itself, or (inside a new helper) a parameter that receives the
+		// batch or its not yet consumed rest
+		own := sl.Parent()
+		var lenRe string
+		if own == fn {
+			if canonName(sl.X) != "$1" {
+				return
+			}
+			lenRe = `len\(\$1\)`
+		} else {
+			prm, isParam := sl.X.(*ssa.Parameter)
+			if !isParam {
+				return
+			}
+			fromBatch := false
+			for _, a := range helperArgs(prm) {
+				for a != nil {
+					if a == ssa.Value(fn.Params[1]) {
+						fromBatch = true
+						break
+					}
+					if s2, ok := a.(*ssa.Slice); ok {
+						a = s2.X
+						continue
+					}
+					break
+				}
+			}
+			if !fromBatch {
+				return
+			}
+			restore := hideHelper(own)
+			defer restore()
+			lenRe = `len\(` + regexp.QuoteMeta(canonName(prm)) + `\)`
+		}
+		abs := rewriter(txCountRe, "N", lenRe, "LEN", `φi`, "I")
+		hiOf := func(v ssa.Value) string {
+			return abstractLin(canonLinear(v), abs).String()
+		}
+		hi := hiOf(sl.High)
+		if os.Getenv("VERIF_DEBUG_R094") != "" {
+			fmt.Fprintf(os.Stderr, "R09.4 slice in %s: X=%s hi=%s\n", fnName(own), canonName(sl.X), hi)
+		}
 		if !strings.Contains(hi, "N") {
 			return
 		}
 		n++
-		paths, okp := pathLinCmps(fn, sl, txAbs)
-		lo := "0"
-		if sl.Low != nil {
-			lo = abstractLin(canonLinear(sl.Low), txAbs).String()
+		var paths [][]string
+		var okp bool
+		if own == fn {
+			paths, okp = pathLinCmps(fn, sl, abs)
+		} else {
+			var lits [][]Lit
+			lits, okp = reachingLitsOwn(own, nil, sl)
+			for _, p := range lits {
+				var ls []string
+				for _, l := range p {
+					if lc, ok := canonLinCmp(l); ok {
+						lc.L = abstractLin(lc.L, abs)
+						ls = append(ls, lc.String())
+					}
+				}
+				paths = append(paths, ls)
+			}
 		}
-		good := okp && hi == "+I+N" && lo == "+I"
+		lo := ""
+		if sl.Low != nil {
+			lo = hiOf(sl.Low)
+			if lo == "0" {
+				lo = ""
+			}
+		}
+		good := okp && hi == lo+"+N" && (lo == "" || lo == "+I")
 		for _, p := range paths {
 			upper, lower := false, false
 			for _, l := range p {
 				switch l {
-				case "+I-LEN+N <= 0", "+I-LEN+N-1 < 0":
+				case lo + "-LEN+N <= 0", lo + "-LEN+N-1 < 0":
 					upper = true
 				case "-N+1 <= 0", "-N < 0":
 					lower = true
@@ -516,6 +648,46 @@ func ruleR09_4(w *World, r *Report) {
 	if n == 0 {
 		r.Lost("ReceiveRemoteModelOperations: slicing of a transaction unit")
 	}
+	// the loop advances by exactly what it consumed: by the announced length after a unit, by one otherwise
+	forEachInstr(fn, func(in ssa.Instruction) {
+		sl, ok := in.(*ssa.Slice)
+		if !ok || canonName(sl.X) != "$1" || sl.High == nil || sl.Parent() != fn {
+			return
+		}
+		idx, ok := sl.Low.(*ssa.Phi)
+		if !ok || !phiCyclic(idx) {
+			return
+		}
+		steps := map[string]bool{}
+		seen := map[ssa.Value]bool{}
+		var walk func(v ssa.Value, d int)
+		walk = func(v ssa.Value, d int) {
+			if seen[v] || d > 10 {
+				return
+			}
+			seen[v] = true
+			if ph, ok := v.(*ssa.Phi); ok && ph != idx {
+				for _, e := range ph.Edges {
+					walk(e, d+1)
+				}
+				return
+			}
+			if c, ok := v.(*ssa.Const); ok && c.Value != nil {
+				return // the initial value
+			}
+			steps[abstractLin(canonLinear(v), txAbs).String()] = true
+		}
+		for _, e := range idx.Edges {
+			walk(e, 0)
+		}
+		var got []string
+		for k := range steps {
+			got = append(got, k)
+		}
+		sort.Strings(got)
+		r.Check(len(got) == 2 && steps["+I+N"] && steps["+I+1"], "ReceiveRemoteModelOperations/loop advance", u.Pos(idx.Pos()), "i += announced length after a unit, i++ otherwise",
+			fmt.Sprintf("the loop over the received operations continues at %v; expected exactly i+n after a transaction unit and i+1 after a single operation: otherwise an operation is skipped (never applied) or applied twice", got))
+	})
 	// a unit that does not fit (announces more than was received, or less than one) is an error for the caller:
 	// the client reports it, the server's rebuild must not store a snapshot for a version it has not fully applied
 	forEachInstr(fn, func(in ssa.Instruction) {
@@ -546,7 +718,8 @@ func ruleR09_5(w *World, r *Report) {
 		r.Lost("TransactionDatatype.ExecuteRemoteTransactionWithCtx")
 		return
 	}
-	abs := txAbsFor(fn)
+	defer aliasDecodedCopies(fn)()
+	abs := txAbs
 	var begin ssa.CallInstruction
 	for _, c := range callsNamed(fn, "BeginTransaction") {
 		begin = c
@@ -557,7 +730,7 @@ func ruleR09_5(w *World, r *Report) {
 	}
 	d := deepOfDepth(fn, 1)
 	dpaths, ok := d.paths(d.find(begin.(ssa.Instruction)), abs)
-	r.Check(ok && allLitPathsHaveLin(dpaths, "+LEN-N == 0"), "ExecuteRemoteTransactionWithCtx/count check", u.Pos(begin.Pos()), "len(unit) == announced count before BeginTransaction",
+	r.Check(ok && (allLitPathsHaveLin(dpaths, "+LEN-N == 0") || allLitPathsHaveLin(dpaths, "-LEN+N == 0")), "ExecuteRemoteTransactionWithCtx/count check", u.Pos(begin.Pos()), "len(unit) == announced count before BeginTransaction",
 		fmt.Sprintf("the transaction begins under %v; expected a preceding check len(transaction) == announced NumOfOps (an incomplete unit must be refused as a whole)", linsOf(dpaths)))
 	// every multi-operation unit goes through that check: the apply loop is reached either with
 	// len <= 1 or through BeginTransaction
@@ -602,4 +775,16 @@ func reachableBlock(a, b *ssa.BasicBlock) bool {
 		work = append(work, x.Succs...)
 	}
 	return false
+}
+
+// hideHelper makes a new helper look like an ordinary function for the naming functions (its parameters are then
+// named $i instead of being replaced by the caller's arguments); the returned function restores it.
+func hideHelper(h *ssa.Function) func() {
+	was, had := flattenable[h]
+	delete(flattenable, h)
+	return func() {
+		if had {
+			flattenable[h] = was
+		}
+	}
 }
